@@ -45,7 +45,7 @@ def run(ctx):
         ntcp += k
     ncases += ntcp
     res = lib.validate(ctx, "H1ServerTrace", "H1ServerTrace.cfg", traces, timeout=1800)
-    lib.handle_rejections(ctx, res, lambda cl: rerun(ctx, cl))
+    lib.handle_rejections(ctx, res, lambda cl: rerun(ctx, cl), rerun_hist=lambda seq: h1common.rerun_h1srv_hist(ctx, seq))
 
     # binding self-tests
     def foreign_body(recs):
